@@ -335,13 +335,33 @@ func TestVerif_C01_mr(t *testing.T) {
 			}
 			return out
 		}
+		offDiff := false // some source chain's f differs from the destination's
 		for ci, c := range chains {
-			thr := 2*c.f + 1
 			for field := 0; field < 3; field++ {
+				thr := 2*c.f + 1
 				if field != 2 && c.sel == dest && r.Chance(1, 2) {
 					continue
 				}
 				order := pickFrom(c, field == 2)
+				// off-ramp next numbers are destination data: the counts are aimed at the threshold of the key chain,
+				// at the destination's, or anywhere from 2*min(f_k,f_dest)+1 to 2*max(f_k,f_dest)+1 (F26: before the
+				// repair the key chain's f decided, after it the destination's; f_k < f_dest and f_k > f_dest both occur)
+				if field == 2 && c.sel != dest {
+					thrD := 2*chains[0].f + 1
+					lo, hi := thr, thrD
+					if lo > hi {
+						lo, hi = hi, lo
+					}
+					switch r.Intn(3) {
+					case 0:
+						thr = thrD
+					case 1:
+						thr = r.Range(lo, hi)
+					}
+					if lo != hi {
+						offDiff = true
+					}
+				}
 				ta := vC01Target(r, thr, len(order))
 				tb := 0
 				if r.Chance(1, 2) {
@@ -554,8 +574,11 @@ func TestVerif_C01_mr(t *testing.T) {
 		input := cTup(cZ(int64(F)), cN(uint64(dest)), cBool(retry), cList(roleStr), cList(known), aoStr)
 		out := cPair(cList(verdicts), res)
 		full := cls
+		if offDiff {
+			full += "+fk!=fd"
+		}
 		if byzCls != "" {
-			full = cls + "/byz"
+			full += "/byz"
 		}
 		_ = rmnCls
 		sink.Emit("C01_mr", full+vC01ResCls(res, nRej), res != "Err" && len(accepted) >= 3, cPair(input, out),
